@@ -949,11 +949,7 @@ class Evaluator:
             if isinstance(fi.node, ast.Lambda):
                 return self.eval(fi.node.body, env)
             if _is_generator(fi.node):
-                # generator function: folded eagerly (the values it yields, in order); exact for generators that are consumed
-                # completely and do not interleave side effects with their consumer
-                env.yielded = []
-                self.exec_block(fi.node.body, env)
-                return list(env.yielded)
+                return LazyGen(lambda: self.exec_block(fi.node.body, env))
             sig = self.exec_block(fi.node.body, env)
             if sig is not None and sig[0] == "return":
                 return sig[1]
@@ -962,21 +958,18 @@ class Evaluator:
             self.depth -= 1
 
     def e_Yield(self, n, env):
-        e = env
-        while e is not None and not hasattr(e, "yielded"):
-            e = getattr(e, "parent", None)
-        if e is None:
+        gen = getattr(_GEN_LOCAL, "current", None)
+        if gen is None:
             raise Undecided("yield outside a folded generator")
-        e.yielded.append(self.eval(n.value, env) if n.value is not None else None)
+        gen.yield_(self.eval(n.value, env) if n.value is not None else None)
         return None
 
     def e_YieldFrom(self, n, env):
-        e = env
-        while e is not None and not hasattr(e, "yielded"):
-            e = getattr(e, "parent", None)
-        if e is None:
+        gen = getattr(_GEN_LOCAL, "current", None)
+        if gen is None:
             raise Undecided("yield from outside a folded generator")
-        e.yielded.extend(self.iterate(self.eval(n.value, env)))
+        for x in self.iterate(self.eval(n.value, env)):
+            gen.yield_(x)
         return None
 
     def call_ext(self, f, args, kwargs, node):
@@ -1391,6 +1384,8 @@ class Evaluator:
     def iterate(self, v):
         if isinstance(v, (list, tuple, range, str, set, frozenset)):
             return v
+        if isinstance(v, LazyGen) or type(v).__name__ == "generator":
+            return v  # single-pass and lazy: handed through as it is
         if isinstance(v, dict):
             return list(v)
         if isinstance(v, Arr):
@@ -1810,7 +1805,23 @@ class Evaluator:
         self._comp(n.generators, env, lambda e: out.append(self.eval(n.elt, e)))
         return out
 
-    e_GeneratorExp = e_ListComp
+    def e_GeneratorExp(self, n, env):
+        """Lazy, as in Python: the first iterable is evaluated now, everything else when the consumer asks."""
+        gens = n.generators
+        first = self.iterate(self.eval(gens[0].iter, env))
+
+        def rec(i, e, items=None):
+            if i == len(gens):
+                yield e
+                return
+            g = gens[i]
+            for item in (items if items is not None else self.iterate(self.eval(g.iter, e))):
+                e2 = Env(self, e.module, parent=e, func=e.func, defcls=env_defcls(e), self_obj=env_self(e))
+                self.assign(g.target, item, e2)
+                if all(self.truth(self.eval(c, e2), c) for c in g.ifs):
+                    yield from rec(i + 1, e2)
+
+        return (self.eval(n.elt, e) for e in rec(0, env, first))
 
     def e_SetComp(self, n, env):
         return set(self.e_ListComp(n, env))
@@ -1893,6 +1904,66 @@ def _has_symbol(v, depth=0):
     if depth < 4 and isinstance(v, dict):
         return any(_has_symbol(x, depth + 1) for x in v.values())
     return False
+
+
+import threading as _threading
+
+_GEN_LOCAL = _threading.local()
+
+
+class LazyGen:
+    """A generator function of the analysed code, folded lazily: its body runs in a thread of its own that is handed control only
+    while the consumer waits in next().  Exactly one of the two runs at any time, so the evaluator's state is never shared
+    concurrently, and the interleaving of producer and consumer side effects (e.g. extending the list that is being iterated) is
+    Python's."""
+
+    def __init__(self, run):
+        self.run = run
+        self.started = False
+        self.done = False
+        self.item = None
+        self.exc = None
+        self.to_gen = _threading.Semaphore(0)
+        self.to_con = _threading.Semaphore(0)
+
+    def __iter__(self):
+        return self
+
+    def __next__(self):
+        if self.done:
+            raise StopIteration
+        if not self.started:
+            self.started = True
+            try:
+                _threading.stack_size(512 * 1024 * 1024)
+            except (ValueError, RuntimeError):
+                pass
+            t = _threading.Thread(target=self._main, daemon=True)
+            t.start()
+        else:
+            self.to_gen.release()
+        self.to_con.acquire()
+        if self.exc is not None:
+            e, self.exc = self.exc, None
+            self.done = True
+            raise e
+        if self.done:
+            raise StopIteration
+        return self.item
+
+    def _main(self):
+        _GEN_LOCAL.current = self
+        try:
+            self.run()
+        except BaseException as e:  # Raised / Undecided / anything: re-raised in the consumer
+            self.exc = e
+        self.done = True
+        self.to_con.release()
+
+    def yield_(self, v):
+        self.item = v
+        self.to_con.release()
+        self.to_gen.acquire()
 
 
 def _is_generator(fn_node):
@@ -2377,8 +2448,8 @@ _BUILTINS = {
     "float": _b_float,
     "bool": lambda v=False: _DUMMY.truth(v),
     "isinstance": _b_isinstance,
-    "filter": lambda f, it: [x for x in _DUMMY.iterate(it) if _DUMMY.truth(f(x) if f is not None else x)],
-    "map": lambda f, *its: [f(*xs) for xs in zip(*[_DUMMY.iterate(i) for i in its])],
+    "filter": lambda f, it: (x for x in _DUMMY.iterate(it) if _DUMMY.truth(f(x) if f is not None else x)),
+    "map": lambda f, *its: (f(*xs) for xs in zip(*[_DUMMY.iterate(i) for i in its])),
     "any": lambda it: any(_DUMMY.truth(x) for x in _DUMMY.iterate(it)),
     "all": lambda it: all(_DUMMY.truth(x) for x in _DUMMY.iterate(it)),
     "print": lambda *a, **k: None,
